@@ -13,6 +13,23 @@ CHECKS = {
          "implementation on the same seeded folds (all kinds, lengths to 2^32, both methods, options).",
          "Trusted: Lean kernel; extract.py's expression translation; harness canonicalisation; NumPy unique/int64 casts; "
          "IEEE exactness of log2 on exact powers of two.", "DESIGN.md section 6 (C07)"),
+ "C09": ("Lean 4 theorems on the equality model + differential correspondence",
+         "Machine-checked theorems (Props/C09.lean): == decides content equality on the model of Fingerprint.__eq__/CountFingerprint.__eq__ "
+         "(hence reflexive, symmetric, transitive, != its negation, never an error within a kind family); copies equal. Tied to the code "
+         "by running ==/!= both ways on seeded near-variant pairs/triples and by mutating copies through every public setter.",
+         "Trusted: Lean kernel; harness canonicalisation; pickle/deepcopy. Copy independence of caller-supplied mutable prop values is not claimed.",
+         "DESIGN.md section 6 (C09)"),
+ "C10": ("Lean 4 round-trip theorems on the representation model + differential correspondence",
+         "Machine-checked round-trip theorems (Props/C10.lean) for index array, dense/sparse vector, bit string, RDKit bit vector, pickle state "
+         "under the class invariant WF; tied to the code by running each route (incl. save/load files with all extensions) on seeded fingerprints "
+         "with bits up to 2^32.",
+         "Trusted: Lean kernel; RDKit bit vectors, pickle, gzip/bz2/smart_open, SciPy CSR construction are abstract injective encodings compared on every run.",
+         "DESIGN.md section 6 (C10)"),
+ "C11": ("Lean 4 set-algebra / pointwise-arithmetic theorems + differential correspondence (exhaustive for small lengths)",
+         "Machine-checked theorems (Props/C11.lean): the five set operators denote union / intersection / difference / symmetric difference of the "
+         "operands' bits, count + and - are pointwise, scalars scale, batch sum/mean are pointwise sums/means, results well-formed, length mismatch rejected. "
+         "Tied to the code by exhaustive enumeration of all operand pairs for lengths <= 3 (4 in thorough) x 5 operators x plain/reflected/in-place forms and seeded samples to 2^32.",
+         "Trusted: Lean kernel; NumPy set routines; float arithmetic exact on generated dyadic values.", "DESIGN.md section 6 (C11)"),
 }
 NOT_YET = {}
 
